@@ -484,7 +484,27 @@ func (c *Check) updatesTakeEffect(rule string) {
 					v := stripConv(stripSpread(field("RequestContext", fld, stored)))
 					old := stripConv(field("RequestContext", fld, L))
 					isParam := v.Op == "" && strings.HasPrefix(v.At, "P")
+					// ... or a value computed from those two alone (a list with duplicates removed): it mentions one of them
+					// and no other field of the stored record
+					derived := false
 					if !(isParam || v.Eq(old)) {
+						mentions, foreign := false, false
+						v.Walk(func(t *Term) bool {
+							if t.Eq(old) {
+								mentions = true
+								return false
+							}
+							if t.Op == "" && strings.HasPrefix(t.At, "P") {
+								mentions = true
+							}
+							if strings.HasPrefix(t.Op, ".RequestContext.") && t.Op != ".RequestContext."+fld {
+								foreign = true
+							}
+							return true
+						})
+						derived = mentions && !foreign
+					}
+					if !(isParam || v.Eq(old) || derived) {
 						if _, dup := badSrc[fld]; !dup {
 							badSrc[fld] = "stored " + fld + " = " + shortTerm(v)
 							badSrcPos[fld] = pa.RetPos
